@@ -1084,6 +1084,9 @@ def unify_types(t1: tp.Type, t2: tp.Type, factory,
             return {}
 
         if t_arg2.is_wildcard():
+            if t_arg1.variance != t_arg2.variance:
+                # `out X` cannot be made identical to `in T` (and vice versa).
+                return {}
             t_arg2 = t_arg2.bound
             t_arg1 = t_arg1.bound
 
